@@ -204,9 +204,6 @@ func checkRepresentation(rep []byte) string {
 					if _, ok := r["name"].(string); !ok {
 						return k + "-table-row-without-name"
 					}
-					if _, ok := r["selector"].(string); !ok {
-						return k + "-table-row-without-selector"
-					}
 				}
 			case api.BODY:
 			default:
